@@ -11,7 +11,7 @@ import (
 
 func c07Run(c *runner.Ctx) {
 	r := c.R
-	jumbo := c.Idx < 3 || (c.Tier == "thorough" && c.Idx < 40)
+	jumbo := c.Idx%50 == 0
 	var w *gen.World
 	var err error
 	if jumbo {
@@ -182,7 +182,7 @@ func init() {
 		Rule: "cases = worlds (built, loaded, merged, merge-of-merge; 3 jumbo worlds per quick run with segments of 2100-3300 documents so that one reader crosses 1024-document chunks repeatedly); per segment 2-3 readers on a permuted subset of the fields plus unknown names; each reader serves 40-400+ visits in one of five orders (forwards, backwards, random, ping-pong around chunk edges 1022..1026/2046..2050, strided); " +
 			"oracle = per visit, per field, the delivered term sequence == sorted distinct terms of the document in the specification; nothing for non-doc-value, unknown fields, documents without terms; only doc < Count is visited; one evaluation per visit; non-trivial = every reader (distinct by case, segment, field list, order)",
 		Assumptions: append([]string{"requested field lists contain no duplicates; cross-field callback order is not compared", "only documents below Count() are visited"}, InputContract...),
-		Phases:      []runner.Phase{{Name: "visit", Cases: cases(150, 4000), Run: c07Run}},
+		Phases:      []runner.Phase{{Name: "visit", Cases: cases(1200, 30000), Run: c07Run}},
 		Floors: func(string) map[string]int64 {
 			return map[string]int64{"chunk_switches": 1000, "chunk_switches_backwards": 300, "readers_on_segments_over_2049_docs": 4, "visits.merged": 5000, "visits.loaded-file": 2000}
 		},
